@@ -74,7 +74,7 @@ Definition table := list (name * scope).      (* module_file -> module scope *)
 (* ------------------------------------------------------------------------- *)
 (* Errors                                                                     *)
 
-Inductive ekind := KDup | KAmbig | KMissing | KArray | KNoncomposite.
+Inductive ekind := KDup | KAmbig | KMissing | KArray | KNoncomposite | KModule.
 
 Record err := Err { e_kind : ekind; e_file : string; e_line : N; e_name : name;
                     e_notes : list (string * N) }.
@@ -327,6 +327,13 @@ Fixpoint tail_walk (tbl : table) (st : scope) (names : list (name * N)) : tres :
 
 Definition missing_error (file : string) (n : name) (l : N) : err := Err KMissing file l n [].
 
+(* `if not found_in_table.canonical_name.object_path`: the name of an imported module by itself
+   does not name an object (fix bdb1a9e) *)
+Definition path_empty (c : cname) : bool := match c.(cn_path) with [] => true | _ => false end.
+
+Definition module_error (file : string) (line : N) (names : list (name * N)) : err :=
+  Err KModule file line (fst (last names ("", 0%N))) [].
+
 (* _resolve_reference/_find_target_of_reference for one Reference;
    had_err = the shared `errors` list is already non-empty *)
 Definition resolve_ref (tbl : table) (mods : list module) (had_err : bool) (rs : refsite)
@@ -346,7 +353,9 @@ Definition resolve_ref (tbl : table) (mods : list module) (had_err : bool) (rs :
         match found, errs, had_err with
         | Some (_, st), [], false =>
           match tail_walk tbl st r.(r_names) with
-          | TOk tgt => Some (Some (sc_cn tgt), [])
+          | TOk tgt => if path_empty (sc_cn tgt)
+                       then Some (None, [module_error s.(st_mod) r.(r_line) r.(r_names)])
+                       else Some (Some (sc_cn tgt), [])
           | TMissing n' l' => Some (None, [missing_error s.(st_mod) n' l'])
           | TStuck => None
           end
